@@ -37,8 +37,8 @@ KindFrom(e) == [i \in Ids |-> IF i \in ToSet(e.unary) THEN "unary" ELSE IF i \in
 Reset == /\ Is("seg")
          /\ kind' = KindFrom(Ev)
          /\ net' = <<>> /\ sentReq' = {} /\ cancelsSent' = [i \in Ids |-> 0] /\ peer' = "up"
-         /\ rd' = "wait" /\ rdMsg' = <<"none">> /\ incClosed' = FALSE /\ execQ' = <<>> /\ ex' = <<"idle">> /\ exec' = "run"
-         /\ main' = "select" /\ connCtx' = "live" /\ exiting' = FALSE /\ sockClosed' = FALSE /\ closeSent' = FALSE
+         /\ rd' = "wait" /\ rdMsg' = <<"none">> /\ incClosed' = FALSE /\ readErr' = FALSE /\ execQ' = <<>> /\ ex' = <<"idle">> /\ exec' = "run"
+         /\ main' = "select" /\ connCtx' = "live" /\ exiting' = FALSE /\ sockClosed' = FALSE /\ closeSent' = FALSE /\ wfail' = FALSE
          /\ handling' = {} /\ hst' = [i \in Ids |-> "none"] /\ hctx' = [i \in Ids |-> "none"] /\ cancelRecv' = {}
          /\ fwd' = <<"none">> /\ chans' = {} /\ chanCtr' = 0 /\ taken' = [i \in Ids |-> 0] /\ pclosed' = {} /\ fclosed' = {}
          /\ out' = <<>> /\ seen' = 0 /\ Adv
@@ -59,6 +59,9 @@ Logged ==
   \/ Is("main.incoming") /\ ~Ev.ok /\ MainIncomingClosed /\ Same
   \/ Is("rd.queue") /\ RdQueue /\ Same
   \/ Is("rd.err") /\ RdErr /\ Same
+  \/ Is("peercut") /\ (IF peer = "up" THEN PeerCut ELSE UNCHANGED vars) /\ Same       \* the proxy cut a frame inside its payload
+  \/ Is("rd.readerr") /\ RdFrameFail /\ Same
+  \/ Is("main.readerr") /\ MainReadError /\ Same
   \/ Is("main.ctxdone") /\ MainCtxDone /\ Same
   \/ Is("srvcancel") /\ (IF connCtx = "live" THEN SrvCancel ELSE UNCHANGED vars) /\ Same
   \/ Is("closechans.pre") /\ ExitWait /\ Same
@@ -78,6 +81,7 @@ Logged ==
   \/ Is("h.ret") /\ Ev.id >= 0 /\ Ev.panic = (kind[Ev.id] = "panic") /\ HReturn(Ev.id) /\ Same
   \/ Is("h.ret") /\ Ev.id < 0 /\ (\E i \in NotifIn("running") : Ev.panic = (kind[i] = "pnotif") /\ HReturn(i)) /\ Same
   \/ Is("handling.done") /\ HDone(Ev.id) /\ Same
+  \/ Is("chout.pre") /\ Ev.id \in Ids /\ (IF fwd = <<"none">> THEN FwdSpawn(Ev.id) ELSE UNCHANGED vars) /\ Same
   \/ Is("fwd.reg") /\ chanCtr + 1 = Ev.chid /\ HChanReg(Ev.id) /\ Same
   \* the handler is about to write a response itself: for a channel-returning method that is the failed registration
   \/ Is("h.resp.pre") /\ Ev.id \in Ids /\ (IF kind[Ev.id] = "sub" /\ hst[Ev.id] = "chanret" THEN HChanRegFail(Ev.id) ELSE UNCHANGED vars) /\ Same
